@@ -1,7 +1,7 @@
 (* C19 (partial: plane geometry and the bounded decision; the ellipsoidal numerics are outside
    the model). *)
-From Coq Require Import Reals Bool.
-From TT Require Import Geo.Plane Proofs.Geo_proofs.
+From Coq Require Import Reals Bool ZArith QArith Qabs.
+From TT Require Import Base.F64 Geo.Plane Geo.Heading Proofs.Geo_proofs Proofs.Heading_proofs.
 Local Open Scope R_scope.
 
 Theorem C19_plane_intersection :
@@ -15,7 +15,28 @@ Theorem C19_plane_intersection :
 Proof. exact plane_intersection. Qed.
 Print Assumptions C19_plane_intersection.
 
+(* Intersect returns the crossing iff, on both segments, the azimuth arriving at the crossing
+   from end point 1 and the azimuth leaving it for end point 2 point the same way (after the
+   repair D25; before it the signs were compared, which fails on meridians). *)
 Theorem C19_bounded_decision :
-  forall sa1 sa2 sb1 sb2, bounded_ok sa1 sa2 sb1 sb2 = true <-> (sa1 = sa2 /\ sb1 = sb2).
-Proof. exact bounded_decision. Qed.
+  forall a1 a2 b1 b2, bounded_ok a1 a2 b1 b2 = true <-> (same_heading a1 a2 = true /\ same_heading b1 b2 = true).
+Proof. intros. unfold bounded_ok. apply andb_true_iff. Qed.
 Print Assumptions C19_bounded_decision.
+
+(* ... and "the same way" is what the extended intersection's clause needs: azimuths equal to
+   within eps < 90 degrees (modulo whole turns) agree - the crossing is inside -, azimuths half a
+   turn apart to within eps do not - it is beyond an end.  The clause gives eps = 1e-6. *)
+Theorem C19_equal_azimuths_inside :
+  forall d (k : Z) eps, (eps < 90)%Q -> (Qabs (d - 360 * inject_Z k) <= eps)%Q -> same_heading_q d = true.
+Proof. exact equal_same. Qed.
+Print Assumptions C19_equal_azimuths_inside.
+Theorem C19_opposite_azimuths_outside :
+  forall d (k : Z) eps, (eps < 90)%Q -> (Qabs (d - 180 - 360 * inject_Z k) <= eps)%Q -> same_heading_q d = false.
+Proof. exact opposite_not_same. Qed.
+Print Assumptions C19_opposite_azimuths_outside.
+
+(* the pre-repair rule is refuted by a meridional segment: arriving azimuth 180, leaving 0 *)
+Example C19_sign_rule_refuted :
+  (* 180.0 and 0.0 have the same sign bit, and do not point the same way *)
+  (Z.testbit 0x4066800000000000 63 = Z.testbit 0 63 /\ same_heading 0x4066800000000000%Z 0%Z = false)%Z.
+Proof. split; vm_compute; reflexivity. Qed.
